@@ -859,7 +859,7 @@ def pool_rules(fb, R):
                 if sense and x['op'] in ('>', '!='):
                     pairs.append((x['rhs'], x['lhs']))
                 for (cv_, bv_) in pairs:
-                    r = fn.sn(bv_)
+                    r = fn.sn(_named_value(fn, bv_))
                     lv = fn.sn(cv_)
                     if r is not None and r.get('k') == 'member' and r['name'] == 'm_num_threads' and lv is not None and lv.get('k') == 'var':
                         bound = bound or counts_from_zero_by_one(fn, lv['d'])
@@ -890,7 +890,38 @@ def pool_rules(fb, R):
             gs = guards_of(fn, j['id'])
             ok = any(sense and (fn.sn(c) or {}).get('q') == 'std::thread::joinable' for (c, sense, _b) in gs)
             inl = [l for l in fn.loops if fn.in_range(j['id'], l['b'], l['e']) and l['cls'] == 'CXXForRangeStmt']
-            ok = ok and len(inl) == 1
+            if len(inl) != 1:
+                # explicit iterator loop: for (it = v.begin(); it != v.end(); ++it) it->join()   (every element, from begin to end)
+                loops = [l for l in fn.loops if fn.in_range(j['id'], l['b'], l['e'])]
+                rv = fn.root_var(j.get('recv')) if j.get('recv') is not None else None
+                whole = False
+                if len(loops) == 1 and rv and rv[0] == 'var':
+                    d = rv[1]
+                    init_begin = False
+                    for dn in fn.all_nodes():
+                        if dn.get('k') == 'decl':
+                            for dv in dn.get('vars', []):
+                                if dv['d'] == d and dv.get('init') is not None:
+                                    iv = fn.sn(dv['init'])
+                                    while iv is not None and iv.get('k') == 'construct' and iv.get('args'):
+                                        iv = fn.sn(iv['args'][0])
+                                    if iv is not None and iv.get('k') == 'call' and iv.get('q', '').endswith('::begin') \
+                                            and (fn.root_var(iv.get('recv')) or ('',))[0] == 'field':
+                                        init_begin = True
+                    to_end = False
+                    for (c, sense, _b) in gs:
+                        x = fn.sn(c)
+                        if x is not None and x.get('k') == 'call' and x.get('op') in ('!=',) and sense:
+                            names = [fn.sn(a) for a in x.get('args', [])] + ([fn.sn(x['recv'])] if x.get('recv') is not None else [])
+                            if any(a is not None and a.get('k') == 'var' and a.get('d') == d for a in names) and \
+                                    any(e_.get('q', '').endswith('::end') for y in fn.subtree(x['id']) for e_ in [fn.nodes[y]] if e_.get('k') == 'call'):
+                                to_end = True
+                    steps = [n for n in fn.all_nodes() if n.get('k') == 'call' and n.get('op') == '++' and (fn.root_var(n.get('recv') if n.get('recv') is not None else (n.get('args') or [None])[0]) or ('', None))[1] == d]
+                    others = [n for n in fn.all_nodes() if n.get('k') in ('assign',) and (fn.root_var(n['lhs']) or ('', None))[1] == d]
+                    whole = init_begin and to_end and len(steps) == 1 and not others
+                ok = ok and whole
+            else:
+                ok = ok and True
         elif not joins:
             # std::for_each(m_threads.begin(), m_threads.end(), [](std::thread& t) { if (t.joinable()) t.join(); })
             for lam in [n for n in fn.all_nodes() if n.get('k') == 'lambda']:
